@@ -91,7 +91,7 @@ class Summaries:
                     out |= self.call_raises(fn.module, n)
                 elif isinstance(n, ast.Attribute) and isinstance(n.ctx, ast.Load):
                     # property getters
-                    rc = self.ctx.facts.recv.get((fn.module.relpath,) + loader.span(n))
+                    rc = self.ctx.facts.recv.get(A.fact_key(fn.module, n))
                     if rc:
                         for cls in self.ctx.facts.mro.get(rc, [rc]):
                             q = f"{cls}.{n.attr}"
